@@ -41,6 +41,11 @@ def scenarios_for(prop, tier, rng):
         bg = agentgen.big_scenarios(prop)
         sc += bg if thorough or prop == "C02" else bg[1:]
         counts["big_policy_scenarios"] = len(bg) if thorough or prop == "C02" else 1
+        sc += agentgen.boundary_scenarios(prop)
+        counts["boundary_value_scenarios"] = 1
+        if prop == "C01" or thorough:
+            sc += agentgen.volume_scenarios(prop)
+            counts["volume_scenarios(12 x 400 ranges)"] = 1
         if prop == "C02":
             xc, r3 = tlc_cases("foreign", 0, f"{prop}-gen-foreign"); gens.append(r3)
             sc += agentgen.foreign_scenarios(xc, prop)
